@@ -24,6 +24,8 @@ RULE = (
     "distinct by source text (+ bindings)."
 )
 
+FUZZ_RUNS = int(__import__("os").environ.get("VERIF_FUZZ_RUNS", "60000"))
+
 TOKENS = ["1", "0x1F", "1u", "1.5", "1e3", ".5", "'a'", '"b"', "'''c'''", "r'\\d'", "b'x'", "true", "false", "null", "x", "y.z", "_a1", "in", "has", "size",
           "(", ")", "[", "]", "{", "}", ".", ",", ":", "?", "+", "-", "*", "/", "%", "!", "<", "<=", ">", ">=", "==", "!=", "&&", "||", "=", "&", "|", "//c\n",
           "'", '"', "'''", '"""', "\\", "\n", " ", "\t", "for", "as", "while", "é", "\U0001f431", "\x00", "0x", "1.e", "9223372036854775808", "..", "?:"]
@@ -151,8 +153,17 @@ def replay(run: common.Run, case: dict, key: str = ""):
     elif "node" in case:
         check_program(run, _node(case["node"]), {k: (v[0], v[1]) for k, v in case["env"].items()}, rep)
     else:
-        check_eval_src(run, case["src"], {}, {"src": case["src"]}, rep)
+        check_eval_src(run, case["src"], _fuzz_binds(case), {"src": case["src"]}, rep)
     return problems
+
+
+def _fuzz_binds(case: dict) -> Dict[str, Any]:
+    """Findings of the coverage-guided campaign name one of its fixed activations."""
+    if "fuzz_activation" not in case:
+        return {}
+    from vf import fuzzdata
+
+    return fuzzdata.activations()[case["fuzz_activation"]]
 
 
 def corpus_pass(run: common.Run, report, shard: Optional[Tuple[int, int]] = None) -> None:
@@ -200,7 +211,7 @@ def campaign(run: common.Run) -> None:
     common.drive(run, body_text, {"t": st.text(max_size=30)}, 400 if q else 6000, seed_salt=1)
     common.drive(run, body_text, {"t": token_soup()}, 1200 if q else 15000, seed_salt=2)
     common.drive(run, body_text, {"t": char_mutated(progs.corpus_expr())}, 800 if q else 10000, seed_salt=3)
-    common.drive(run, body_prog, {"p": gen.any_program(4)}, 2000 if q else 25000, seed_salt=4)
+    common.drive(run, body_prog, {"p": gen.any_program(4)}, 4500 if q else 30000, seed_salt=4)
     common.drive(run, body_mut, {"s": progs.mutated_corpus()}, 500 if q else 8000, seed_salt=5)
 
 
@@ -223,3 +234,5 @@ def main(run: common.Run) -> None:
         corpus_pass(run, run.fail)
         for s in common.run_sharded(run.pid, run.tier, run.seed, campaign, 16, RULE):
             run.merge(s)
+        # coverage-guided supplement: token-level and raw-text inputs mutated by libFuzzer under coverage feedback from the celpy package
+        run.extra["coverage_guided"] = common.fuzz_campaign(run, replay, workers=16, runs=FUZZ_RUNS)
